@@ -1041,7 +1041,8 @@ def _unit(prop, ad, run, fam, thms, note):
 
     mod = f"Rl4co.Props.{prop}.{fam}"
     text = _module_text(mod)
-    have = [t for t in thms if re.search(r"^theorem\s+" + re.escape(t.name.split(".")[-1]) + r"\b", text, re.M)]
+    alltext = text + _module_text(f"Rl4co.Proofs.{fam}Generated") + _module_text(f"Rl4co.Props.C01.{fam}")
+    have = [t for t in thms if re.search(r"^theorem\s+" + re.escape(t.name.split(".")[-1]) + r"\b", alltext, re.M)]
     register(Unit(prop, ad.name, (lambda ctx, run=run, ad=ad: run(ctx, ad)),
                   drivers=["drv_op" if fam == "Op" else "drv_pctsp"],
                   lean_modules=[mod] if text else [f"Rl4co.Spec.{fam}"],
@@ -1057,7 +1058,11 @@ OP_THMS = {
             T("Rl4co.Op.feasible_of_run_precomp", "proved",
               "the same with the reset-time pre-computation inside the model: the only fact used about the budgets is that they "
               "are `max_length − dist − 1e-6` (extracted constant) up to a float32 rounding error (evaluated on every instance)"),
-            T("Rl4co.Op.marginGe_of_precomp", "proved", "the pre-computed budgets stay ≥ 1e-6 − rho below L − D j 0")],
+            T("Rl4co.Op.marginGe_of_precomp", "proved", "the pre-computed budgets stay ≥ 1e-6 − rho below L − D j 0"),
+            T("Rl4co.Op.step_len_generated", "proved", "generated `_step` tour-length expression = model (rfl)"),
+            T("Rl4co.Op.exceeds_generated", "proved", "generated mask length expression = model (rfl)"),
+            T("Rl4co.Op.baseMask_generated", "proved", "generated `visited | visited[0] | exceeds` expression = model (rfl)"),
+            T("Rl4co.Op.budgetSpec_generated", "proved", "generated `_reset` budget expression = the model's pre-computation")],
     "C02": [T("Rl4co.Op.mask_nonempty", "proved", "every state offers the depot"),
             T("Rl4co.Op.done_stable", "proved", "done is absorbing under admitted steps from reachable states"),
             T("Rl4co.Op.steps_le", "proved", "an unfinished mask-confined run has at most max(n+1, 2) steps")],
@@ -1073,6 +1078,10 @@ OP_THMS = {
               "prizes reachable through the mask = prizes of feasible tours of length ≤ L − margin; the two optima are EQUAL"),
             T("Rl4co.Op.opt_sandwich", "proved", "with rounding: optimum(≤ L − m_hi) ≤ reachable optimum ≤ optimum(≤ L − m_lo)"),
             T("Rl4co.Op.reachable_le_feasible", "proved", "the reachable optimum never exceeds the optimum over tours of length ≤ L"),
+            T("Rl4co.Op.run_of_feasible_no_margin", "proved",
+              "repaired clause: without the margin (budgets ≥ L − D j 0) the mask offers every canonical feasible tour, length = max_length included"),
+            T("Rl4co.Op.run_iff_slack", "proved", "exact: a canonical feasible tour is a finished mask-confined run ⇔ it keeps the margin unused"),
+            T("Rl4co.Op.hidden_iff", "proved", "the hidden set: feasible canonical tours NOT offered are exactly those with remaining slack in [0, margin)"),
             T("Rl4co.Op.opt_reachable_partial", "partial",
               "every feasible action list with that slack (canonical or not) has a finished mask-confined episode with the same prize")],
     "C06": [T("Rl4co.Op.check_complete", "proved", "Spec-feasible ⇒ checker accepts (depot triangle inequality)"),
@@ -1085,13 +1094,22 @@ OP_THMS = {
             T("Rl4co.Op.check_iff_feasibleWithin", "proved", "bounds = L + tol ⇒ (accepted ⇔ feasible within tol) for lists closed at the depot"),
             T("Rl4co.Op.check_complete_precomp", "proved", "completeness with the checker bound `L + 1e-5` (extracted) inside the model"),
             T("Rl4co.Op.check_sound_precomp", "partial", "soundness for closed lists with the checker bound inside the model"),
+            T("Rl4co.Op.checkRepaired_iff", "proved", "repaired clause: with the depot prepended the checker is exact (accepted ⇔ feasible within tol) for ALL lists"),
+            T("Rl4co.Op.wrongly_accepted_iff", "proved", "the wrongly accepted set: in range, no repeat, cycle within the bound, tour through the depot beyond it"),
+            T("Rl4co.Op.checkRepaired_eq_of_closed", "proved", "shipped and repaired checker agree on lists closed at the depot"),
             T("Rl4co.Op.check_single_column_batch", "proved",
               "on single-column action tensors the batched checker's verdict is the conjunction of the row-wise verdicts "
               "(upstream fix 9be001b; the real batched checker is compared with this model as a regression probe)")],
 }
 PC_THMS = {
     "C01": [T("Rl4co.Pctsp.feasible_of_run", "proved",
-              "every mask-confined finished (S)PCTSP episode visits customers at most once and collects real prize ≥ 1 or visits all")],
+              "every mask-confined finished (S)PCTSP episode visits customers at most once and collects real prize ≥ 1 or visits all"),
+            T("Rl4co.Pctsp.realPrize_eq", "proved", "token obligation: the stochastic env collects `stochastic_prize`, the deterministic one `deterministic_prize`"),
+            T("Rl4co.Pctsp.stepPrize_eq", "proved", "token obligation: `_step` accumulates `real_prize` (not the expected prize)"),
+            T("Rl4co.Pctsp.spctsp_real_is_sto", "proved", "token obligation: `SPCTSPEnv._stochastic = True`"),
+            T("Rl4co.Pctsp.pctsp_real_is_det", "proved", "token obligation: `PCTSPEnv._stochastic = False`"),
+            T("Rl4co.Pctsp.step_tot_generated", "proved", "generated `_step` prize expression = model (rfl)"),
+            T("Rl4co.Pctsp.reward_generated", "proved", "generated `_get_reward` return expression = model (rfl)")],
     "C02": [T("Rl4co.Pctsp.mask_nonempty", "proved", "every reachable state offers an action"),
             T("Rl4co.Pctsp.done_stable", "proved", "done is absorbing under admitted steps from reachable states"),
             T("Rl4co.Pctsp.steps_le", "proved", "an unfinished mask-confined run has at most max(n+1, 2) steps")],
@@ -1102,6 +1120,10 @@ PC_THMS = {
               "every canonical feasible solution (prize exactly 1 included) is a finished mask-confined run"),
             T("Rl4co.Pctsp.opt_reachable", "proved",
               "for every feasible action list some finished mask-confined episode has reward ≥ −its objective (optimum reachable)"),
+            T("Rl4co.Pctsp.mask_depot_iff", "proved", "the depot is offered ⇔ collected prize ≥ 1.0 (equality included) or no customer left, in every state"),
+            T("Rl4co.Pctsp.depot_offered_at_exactly_required", "proved", "at cur_total_prize = 1.0 exactly the return is admitted"),
+            T("Rl4co.Pctsp.depot_masked_below_required", "proved", "below 1.0 with a customer left the return is masked"),
+            T("Rl4co.Pctsp.run_of_feasible_exact", "proved", "a canonical solution collecting EXACTLY the required prize is a finished mask-confined run"),
             T("Rl4co.Pctsp.opt_eq", "proved",
               "equation of optima: v is the best reward over finished mask-confined episodes ⇔ v is the optimum over feasible solutions")],
     "C06": [T("Rl4co.Pctsp.check_complete", "proved", "Spec-feasible ⇒ checker accepts"),
@@ -1172,6 +1194,97 @@ if _module_text("Rl4co.Props.C18.Pctsp"):
                                 T("Rl4co.Pctsp.collected_le_twice_expected", "proved", "real prize collected ≤ 2 × expected prize (GenWF)"),
                                 T("Rl4co.Pctsp.expected_ge_half_of_done", "proved",
                                   "a finished mask-confined episode leaving a customer unvisited has expected prize ≥ requirement/2"),
+                                T("Rl4co.Pctsp.gen_c02", "proved", "C18 → C02 chain: no dead end, step bound, no hypothesis"),
                                 T("Rl4co.Pctsp.admitted_customers_indep", "proved",
                                   "customer moves are admitted independently of the prizes / the stochastic flag")],
                       assumptions=[NOTE_PC, "generator ranges are evaluated on the real draws in float64 (no Lean driver involved)"]))
+
+
+def check_spec_sanity(ctx, ad, cases_quick: int = 60, cases_thorough: int = 600):
+    """Spec-level sanity through the executable Spec oracle (driver `*.check`): on random action lists (feasible or
+    not) the Spec verdict and objective are invariant under the symmetries the lemmas of `…SpecSanity.lean` state:
+    reversal (symmetric distances), depot padding, and — for the prize part — reordering."""
+    for g in range(ctx.budget(cases_quick, cases_thorough)):
+        env, var = envcorr.pick_env(ctx, ad)
+        n = ctx.rng.choice([1, 2, 3, 5, 8])
+        inst = ad.gen_instance(ctx.rng, n, ctx.rng.choice(ad.kinds()), **var)
+        sol = ctx.rng.sample(range(1, n + 1), ctx.rng.randint(0, n))
+        if ctx.rng.random() < 0.5:
+            sol = sol + [0]
+        if ctx.rng.random() < 0.2 and sol:
+            sol = sol + [sol[0]]  # a repeated customer: infeasible both ways
+        variants = {"reversed": list(reversed(sol)), "padded": sol + [0], "shuffled": ctx.rng.sample(sol, len(sol))}
+        reps = ctx.driver.ask_many([ad.line("check", inst, s) for s in [sol] + list(variants.values())])
+        fs = [parse_fields(r) for r in reps]
+        base = fs[0]
+        ctx.case((ad.name, "spec-sanity", repr(inst), tuple(sol)))
+        ctx.count(f"{ad.name}.spec-sanity.{'feasible' if base.get('feas') == '1' else 'infeasible'}")
+        for (lab, s2), f in zip(variants.items(), fs[1:]):
+            same_feas = lab != "shuffled"  # reordering changes the length (OP) but never the prize part
+            if same_feas and f.get("feas") != base.get("feas"):
+                ctx.disagreement(f"{ad.name}: Spec feasibility not invariant under `{lab}`", {"inst": inst, "actions": sol, lab: s2})
+            obj_inv = (ad.name == "op") or lab != "shuffled"
+            if obj_inv and lab != "padded" and f.get("obj") != base.get("obj"):
+                ctx.disagreement(f"{ad.name}: Spec objective not invariant under `{lab}`", {"inst": inst, "actions": sol, lab: s2})
+        ctx.sample({"env": ad.name, "actions": sol, "spec_feasible": base.get("feas"), "objective": base.get("obj")}, cap=4)
+
+
+def check_op_gen_chain(ctx, ad, batches_quick: int = 12, batches_thorough: int = 150):
+    """C18 → C02 chain for OP: the real generator with each of the three prize types emits prizes in [0.01, 1]
+    (`genPrize_range`), and episodes through the real mask have no dead end and finish within max(n+1, 2) steps
+    (`gen_c02`)."""
+    from rl4co.envs.routing.op.env import OPEnv
+
+    for g in range(ctx.budget(batches_quick, batches_thorough)):
+        n = ctx.rng.choice([1, 2, 5, 10, 20, 50])
+        B = ctx.rng.choice([1, 4, 16])
+        pt = ["const", "unif", "dist"][g % 3]
+        torch.manual_seed(ctx.rng.randrange(1 << 31))
+        env = OPEnv(generator_params=dict(num_loc=n, prize_type=pt, max_length=ctx.rng.choice([0.5, 2.0, 4.0])), prize_type=pt,
+                    check_solution=False)
+        td0 = env.generator(batch_size=[B])
+        pr = td0["prize"].double()
+        ctx.count(f"op.gen.prize_type={pt}", B)
+        if not bool((pr >= 0.01 - 1e-9).all() and (pr <= 1 + 1e-9).all()):
+            ctx.violation("op:generator-prize-out-of-range", f"prize_type={pt}: a generated prize is outside [0.01, 1]",
+                          {"n": n, "prize": pr.tolist()[:2]})
+        try:
+            ep = rl.run_episode(env, td0, envcorr.uniform_chooser(ctx.rng), max_steps=20 * (n + 2) + 50)
+        except RuntimeError as e:
+            ctx.violation("op:generic:no-termination", str(e), {"n": n, "prize_type": pt})
+            continue
+        for r in range(B):
+            d = ep.done[r]
+            first = d.index(1) if 1 in d else None
+            ctx.case(("op", "gen-chain", g, r, tuple(ep.actions[r])))
+            if ep.empty_mask_rows or first is None or first > max(n + 1, 2):
+                ctx.violation("op:generator-instance-c02", "dead end / step bound exceeded on a generator instance",
+                              {"n": n, "prize_type": pt, "actions": ep.actions[r], "first_done": first})
+        ctx.sample({"env": "op", "prize_type": pt, "n": n, "prize": pr[0].tolist()[:5], "actions": ep.actions[0]}, cap=6)
+
+
+for _ad, _fam in ((OP, "Op"), (PC, "Pctsp"), (SP, "Pctsp")):
+    _m = f"Rl4co.Props.C01.{_fam}SpecSanity"
+    if _module_text(_m):
+        _ns = f"Rl4co.Spec.{_fam}"
+        _th = [T(f"{_ns}.feasibleWithin_zero_iff", "proved", "tolerance 0 is feasibility"),
+               T(f"{_ns}.feasibleWithin_mono", "proved", "FeasibleWithin is monotone in the tolerance"),
+               T(f"{_ns}.feasible_reverse", "proved", "symmetric distances: a tour and its reversal are feasible together, same objective")]
+        _th += ([T(f"{_ns}.feasible_nil", "proved", "a feasible solution always exists (stay at the depot)"),
+                 T(f"{_ns}.objective_perm", "proved", "the collected prize is invariant under reordering the visits"),
+                 T(f"{_ns}.objective_pad", "proved", "… and under depot padding"),
+                 T(f"{_ns}.objective_mono", "proved", "non-negative prizes: visiting more never collects less"),
+                 T(f"{_ns}.feasible_mono", "proved", "feasibility is monotone in the budget")] if _fam == "Op" else
+                [T(f"{_ns}.feasible_allTour", "proved", "a feasible solution exists for EVERY instance (visit everybody)"),
+                 T(f"{_ns}.collected_congr", "proved", "the collected prize depends on the visited set only"),
+                 T(f"{_ns}.feasible_mono_req", "proved", "lowering the requirement keeps solutions feasible")])
+        register(Unit("C01", f"{_ad.name}-spec", (lambda ctx, ad=_ad: check_spec_sanity(ctx, ad)),
+                      drivers=["drv_op" if _fam == "Op" else "drv_pctsp"], lean_modules=[_m], theorems=_th,
+                      assumptions=["Spec-level sanity: lemmas about the independent problem definition only (no environment model)"]))
+
+if _module_text("Rl4co.Props.C18.Op"):
+    register(Unit("C18", "op-genwf", lambda ctx: check_op_gen_chain(ctx, OP), drivers=[], lean_modules=["Rl4co.Props.C18.Op"],
+                  theorems=[T("Rl4co.Op.genPrize_range", "proved", "every prize type (const, unif, dist) emits prizes in [0.01, 1] (via Gen.op_prize_total)"),
+                            T("Rl4co.Op.gen_objective_mono", "proved", "on generator instances visiting more customers never collects less"),
+                            T("Rl4co.Op.gen_c02", "proved", "C02 for all three prize types: no dead end, step bound max(n+1, 2), no hypothesis")],
+                  assumptions=[NOTE_OP, "generator ranges are evaluated on the real draws in float64 (no Lean driver involved)"]))
